@@ -98,15 +98,27 @@ def _compare(out, cands, w, l, E_sets, rankings):
     n = 0
     inter = False
     for r in rankings:
-        cv = CVR(id="x", votes={"K": {c: i + 1 for i, c in enumerate(r)}})
+        ranks = {c: i + 1 for i, c in enumerate(r)}
+        # the same ballot held in dicts keyed in preference order, in candidate order and in reverse preference order:
+        # a ranked vote is the mapping candidate -> rank, whatever the order of the keys
+        variants = [ranks, {c: ranks[c] for c in cands if c in ranks}, {c: ranks[c] for c in reversed(list(r))}]
         rc = {"K": {c: i for i, c in enumerate(r)}}
+        rc_variants = [rc, {"K": {c: rc["K"][c] for c in cands if c in rc["K"]}}]
+        for vi, votes in enumerate(variants):
+            cv = CVR(id="x", votes={"K": votes})
+            for k, a in zip(keys, gen):
+                want = (a.is_vote_for_winner(rc) - a.is_vote_for_loser(rc) + 1) / 2
+                got = asn[k].assorter.assort(cv)
+                n += 1
+                if want != 0.5:
+                    inter = True
+                if not out.expect(got == want, "assorter!=generator-verdict", lambda: {"assertion": k, "ranking": list(r), "dict-key-order": list(votes), "audit": got, "generator": want}):
+                    return n, inter
         for k, a in zip(keys, gen):
-            want = (a.is_vote_for_winner(rc) - a.is_vote_for_loser(rc) + 1) / 2
-            got = asn[k].assorter.assort(cv)
+            w0 = (a.is_vote_for_winner(rc), a.is_vote_for_loser(rc))
+            w1 = (a.is_vote_for_winner(rc_variants[1]), a.is_vote_for_loser(rc_variants[1]))
             n += 1
-            if want != 0.5:
-                inter = True
-            if not out.expect(got == want, "assorter!=generator-verdict", lambda: {"assertion": k, "ranking": list(r), "audit": got, "generator": want}):
+            if not out.expect(w0 == w1, "generator-verdict-depends-on-dict-key-order", lambda: {"assertion": k, "ranking": list(r), "verdicts": (w0, w1)}):
                 return n, inter
     return n, inter
 
